@@ -116,6 +116,7 @@ func genCfg(t *rapid.T, forceMM int, allowDelta bool) Cfg {
 		cfg.Delta = rapid.Bool().Draw(t, "delta")
 	}
 	cfg.NWriters = rapid.IntRange(1, 3).Draw(t, "writers")
+	cfg.NodeList = rapid.IntRange(0, 2).Draw(t, "nodelist") == 0
 	return cfg
 }
 
